@@ -56,6 +56,7 @@ pub fn conformance_scenarios(tier: Tier) -> Vec<DScn> {
 }
 
 pub struct Conf {
+    pub pruned: u64,
     pub schedules: u64,
     pub agreed: u64,
     pub steps: u64,
@@ -64,13 +65,14 @@ pub struct Conf {
 }
 
 pub fn run_conformance(scns: Vec<DScn>) -> Conf {
-    let mut c = Conf { schedules: 0, agreed: 0, steps: 0, divergences: vec![], incomplete: 0 };
+    let mut c = Conf { pruned: 0, schedules: 0, agreed: 0, steps: 0, divergences: vec![], incomplete: 0 };
     for s in scns {
         let r = explore_dbx(&s);
         c.schedules += r.schedules;
         c.agreed += r.agreed;
         c.steps += r.steps_validated;
         c.incomplete += r.incomplete;
+        c.pruned += r.pruned_ambiguous;
         c.divergences.extend(r.divergences);
     }
     c
@@ -113,6 +115,7 @@ pub fn c11(args: &Args) -> Report {
     let mut points = 0;
     let mut steps = 0;
     let mut incomplete = conf.incomplete;
+    let mut pruned = conf.pruned;
     let mut samples = vec![];
     let mut per = vec![];
     for s in c11_scenarios(args.tier) {
@@ -122,6 +125,7 @@ pub fn c11(args: &Args) -> Report {
         points += r.choice_points;
         steps += r.steps_validated;
         incomplete += r.incomplete;
+        pruned += r.pruned_ambiguous;
         per.push(json!({"scenario": s.name, "schedules": r.schedules, "agreed_with_twins": r.agreed, "choice_points": r.choice_points, "deviation_bound": r.bound, "incomplete": r.incomplete}));
         if let Some(x) = r.sample {
             if samples.len() < 3 {
@@ -154,6 +158,7 @@ pub fn c11(args: &Args) -> Report {
         "single_transaction_conformance": {"schedules": conf.schedules, "agreed": conf.agreed, "real_loop_steps_replayed_on_twin": conf.steps},
         "per_scenario": per,
         "schedules_cut_by_horizon": incomplete,
+        "schedules_pruned_ambiguous_timers": pruned,
         "deviation_bound_completed": args.tier.pick(2, 3),
         "exhaustive": incomplete == 0,
         "explanation": "states = choice points visited, transitions = steps of the real transaction loops observed through hook H5 and replayed on the twins",
@@ -220,6 +225,53 @@ pub fn dbg(args: &Args) -> Report {
     std::env::set_var("VERIF_E2_DEBUG", "1");
     let r = run_schedule(&scn, &choices);
     println!("divergence: {:?}\nviolations: {:?}", r.divergence, r.violations);
+    let mut rep = Report::new("other");
+    rep.coverage = json!({"explanation": "debug"});
+    rep
+}
+
+/// debugging aid: memory growth per schedule
+pub fn leak(args: &Args) -> Report {
+    let scn = c11_scenarios(Tier::Quick).remove(0);
+    let mode = args.extra.first().cloned().unwrap_or_default();
+    let rss = || {
+        let s = std::fs::read_to_string("/proc/self/statm").unwrap();
+        s.split_whitespace().nth(1).unwrap().parse::<u64>().unwrap() * 4 / 1024
+    };
+    println!("start rss={} MB", rss());
+    if mode == "lvl1" {
+        let scn = c11_scenarios(Tier::Quick).remove(1);
+        let r0 = run_schedule(&scn, &[]);
+        for i in 0..r0.points.len() {
+            for alt in 1..r0.points[i].0 {
+                let mut p: Vec<usize> = r0.points[..i].iter().map(|x| x.1).collect();
+                p.push(alt);
+                let before = rss();
+                let t = std::time::Instant::now();
+                let r = run_schedule(&scn, &p);
+                if rss() > before + 20 || t.elapsed().as_millis() > 200 {
+                    println!("prefix {:?}: rss {} -> {} MB, {} ms, steps {}, completed {}, last acts {:?}", p, before, rss(), t.elapsed().as_millis(), r.steps, r.completed, &r.acts[r.acts.len().saturating_sub(6)..]);
+                }
+            }
+        }
+        let mut rep = Report::new("other");
+        rep.coverage = json!({"explanation": "debug"});
+        return rep;
+    }
+    for i in 0..3000 {
+        match mode.as_str() {
+            "rt" => {
+                let rt = tokio::runtime::Builder::new_current_thread().enable_time().start_paused(true).build().unwrap();
+                rt.block_on(async { tokio::time::sleep(std::time::Duration::from_millis(1)).await });
+            }
+            _ => {
+                let _ = run_schedule(&scn, &[]);
+            }
+        }
+        if i % 500 == 0 {
+            println!("{} rss={} MB", i, rss());
+        }
+    }
     let mut rep = Report::new("other");
     rep.coverage = json!({"explanation": "debug"});
     rep
